@@ -247,7 +247,215 @@ proof! {
 	}
 }
 
+fn basic(nonces: &[u64; N], edge_mask: u64) -> bool {
+	let mut i = 0;
+	while i < N {
+		if nonces[i] > edge_mask {
+			return false;
+		}
+		if i > 0 && nonces[i] <= nonces[i - 1] {
+			return false;
+		}
+		i += 1;
+	}
+	true
+}
+
+/// Cuckarood (directed bipartite; direction = low bit of the nonce, half of the edges each way):
+/// the n edges form one simple cycle whose edges alternate direction: on each side every edge
+/// shares its endpoint with exactly one other edge, that edge has the opposite direction, and
+/// alternately following U- and V-side matches from the first direction-0 edge closes after
+/// exactly n steps.
+fn oracle_cuckarood(nonces: &[u64; N], u: &[u64; N], v: &[u64; N], edge_mask: u64) -> bool {
+	if !basic(nonces, edge_mask) {
+		return false;
+	}
+	let mut n0 = 0;
+	let mut first0 = N;
+	let mut i = 0;
+	while i < N {
+		if nonces[i] & 1 == 0 {
+			if first0 == N {
+				first0 = i;
+			}
+			n0 += 1;
+		}
+		i += 1;
+	}
+	if n0 != N / 2 {
+		return false;
+	}
+	let mut mu = [0usize; N];
+	let mut mv = [0usize; N];
+	i = 0;
+	while i < N {
+		let mut cu = 0;
+		let mut cv = 0;
+		let mut j = 0;
+		while j < N {
+			if j != i {
+				if u[j] == u[i] {
+					cu += 1;
+					mu[i] = j;
+				}
+				if v[j] == v[i] {
+					cv += 1;
+					mv[i] = j;
+				}
+			}
+			j += 1;
+		}
+		if cu != 1 || cv != 1 {
+			return false;
+		}
+		if (nonces[mu[i]] ^ nonces[i]) & 1 == 0 || (nonces[mv[i]] ^ nonces[i]) & 1 == 0 {
+			return false;
+		}
+		i += 1;
+	}
+	let mut cur = first0;
+	let mut side_u = true;
+	let mut steps = 0;
+	while steps < N {
+		cur = if side_u { mu[cur] } else { mv[cur] };
+		side_u = !side_u;
+		steps += 1;
+		if cur == first0 && steps < N {
+			return false;
+		}
+	}
+	cur == first0
+}
+
+/// Cuckaroom (directed, one node set): edge i leads from from[i] to to[i]; the n edges form one
+/// simple directed cycle iff every edge has exactly one successor (an edge starting where it
+/// ends) and following successors from edge 0 returns to edge 0 after exactly n steps.
+fn oracle_cuckaroom(nonces: &[u64; N], from: &[u64; N], to: &[u64; N], edge_mask: u64) -> bool {
+	if !basic(nonces, edge_mask) {
+		return false;
+	}
+	let mut succ = [0usize; N];
+	let mut i = 0;
+	while i < N {
+		let mut c = 0;
+		let mut j = 0;
+		while j < N {
+			if from[j] == to[i] {
+				c += 1;
+				succ[i] = j;
+			}
+			j += 1;
+		}
+		if c != 1 {
+			return false;
+		}
+		i += 1;
+	}
+	let mut cur = 0usize;
+	let mut steps = 0;
+	while steps < N {
+		cur = succ[cur];
+		steps += 1;
+		if cur == 0 && steps < N {
+			return false;
+		}
+	}
+	cur == 0
+}
+
+/// Cuckarooz (undirected, one node set): every node touched by the n edges has degree exactly
+/// two (each of the 2n endpoints equals exactly one other endpoint) and walking edge to edge
+/// from edge 0 returns to it after exactly n steps.
+fn oracle_cuckarooz(nonces: &[u64; N], u: &[u64; N], v: &[u64; N], edge_mask: u64) -> bool {
+	if !basic(nonces, edge_mask) {
+		return false;
+	}
+	let mut ep = [0u64; 2 * N];
+	let mut i = 0;
+	while i < N {
+		ep[2 * i] = u[i];
+		ep[2 * i + 1] = v[i];
+		i += 1;
+	}
+	let mut m = [0usize; 2 * N];
+	i = 0;
+	while i < 2 * N {
+		let mut c = 0;
+		let mut j = 0;
+		while j < 2 * N {
+			if j != i && ep[j] == ep[i] {
+				c += 1;
+				m[i] = j;
+			}
+			j += 1;
+		}
+		if c != 1 {
+			return false;
+		}
+		i += 1;
+	}
+	let mut cur = 0usize;
+	let mut steps = 0;
+	while steps < N {
+		cur = m[cur] ^ 1;
+		steps += 1;
+		if cur == 0 && steps < N {
+			return false;
+		}
+	}
+	cur == 0
+}
+
+macro_rules! cuckaroo_family {
+	($name:ident, $ctor:path, $node_bits:expr, $oracle:ident, $label:expr) => {
+		proof! {
+			[]
+			#[cfg_attr(kani, kani::stub(grin_core::pow::siphash::siphash_block, e5::siphash_block))]
+			#[cfg_attr(kani, kani::stub(grin_core::global::proofsize, e5::proofsize))]
+			fn $name() {
+				#[cfg(kani)]
+				{
+					env::set_chain_type(grin_core::global::ChainTypes::AutomatedTesting);
+					let ctx = $ctor(EB, N).unwrap();
+					let mut nonces = [0u64; N];
+					let mut u = [0u64; N];
+					let mut v = [0u64; N];
+					let edge_mask = (1u64 << EB) - 1;
+					let node_mask = (1u64 << $node_bits) - 1;
+					let mut i = 0;
+					while i < N {
+						nonces[i] = nd::any();
+						let e: u64 = nd::any();
+						unsafe {
+							e5::TAB[i] = e;
+						}
+						u[i] = e & node_mask;
+						v[i] = (e >> 32) & node_mask;
+						i += 1;
+					}
+					unsafe { e5::CALLS = 0; }
+					let proof = Proof { edge_bits: EB, nonces: nonces.to_vec() };
+					let r = ctx.verify(&proof);
+					let expect = $oracle(&nonces, &u, &v, edge_mask);
+					check!(r.is_ok() == expect, $label);
+					cover!(r.is_ok(), "a cycle is accepted");
+					cover!(r.is_err() && nonces[N - 1] <= edge_mask, "a well-formed non-cycle is rejected");
+					core::mem::forget(r);
+					core::mem::forget(proof);
+					core::mem::forget(ctx);
+				}
+			}
+		}
+	};
+}
+cuckaroo_family!(cuckarood_verify_matches_definition, grin_core::pow::new_cuckarood_ctx, (EB - 1), oracle_cuckarood, "cuckarood verify accepts exactly the simple direction-alternating cycles of the graph");
+cuckaroo_family!(cuckaroom_verify_matches_definition, grin_core::pow::new_cuckaroom_ctx, EB, oracle_cuckaroom, "cuckaroom verify accepts exactly the simple directed cycles of the graph");
+cuckaroo_family!(cuckarooz_verify_matches_definition, grin_core::pow::new_cuckarooz_ctx, (EB + 1), oracle_cuckarooz, "cuckarooz verify accepts exactly the simple cycles of the graph");
+
 pub const HARNESSES: &[(&str, fn())] = &[
+	("c05a::cuckarood_verify_matches_definition", cuckarood_verify_matches_definition),
+	("c05a::cuckaroom_verify_matches_definition", cuckaroom_verify_matches_definition),
+	("c05a::cuckarooz_verify_matches_definition", cuckarooz_verify_matches_definition),
 	("c05a::cuckatoo_verify_matches_definition", cuckatoo_verify_matches_definition),
 	("c05a::cuckaroo_verify_matches_definition", cuckaroo_verify_matches_definition),
 ];
